@@ -3,6 +3,7 @@
    dataclass_field defaults, Message.__post_init__, __getattribute__,
    __setattr__, _get_field_default(_gen), _betterproto.cls_by_field. *)
 From BP Require Import Base.Prelude Model.Types.
+From BP Require gen.Tables.
 
 (* what the resolved type hint of a field is, as far as the code looks at it *)
 Inductive pyty :=
@@ -25,7 +26,9 @@ Record fdesc := mkF {
   fgroup : option nat;               (* meta.group, as an index *)
   fwraps : option ptype;             (* meta.wraps *)
   fopt : bool;                       (* meta.optional *)
-  fhint : hint }.
+  fhint : hint;
+  fentry : nat }.                    (* map fields: index of the synthetic Entry class
+                                        (_betterproto.cls_by_field[name]); 0 otherwise *)
 
 Record cdesc := mkC { cfields : list fdesc; cngroups : nat }.
 Record edesc := mkE { emembers : list (list byte * Z) }.      (* name, number; declaration order *)
@@ -33,6 +36,38 @@ Record schema := mkS { classes : list cdesc; enums : list edesc }.
 
 Definition empty_class : cdesc := mkC [] 0.
 Definition get_class (S : schema) (c : nat) : cdesc := nth c (classes S) empty_class.
+
+(* ---- classes betterproto itself brings: every schema's class table starts with them ----
+   index 0 Timestamp, 1 Duration (field layout regenerated from the bundled library),
+   2.. the wrapper messages of _get_wrapper, one `value = 1` field each. *)
+Definition plain_pyty (t : ptype) : pyty :=
+  match t with
+  | TBool => PyBool | TFloat | TDouble => PyFloat | TString => PyStr | TBytes => PyBytes
+  | _ => PyInt
+  end.
+Definition plain_field (name : list byte) (num : Z) (t : ptype) : fdesc :=
+  mkF name num t None None None false (HPlain (plain_pyty t)) 0.
+Definition class_of_layout (l : list (list byte * Z * ptype)) : cdesc :=
+  mkC (map (fun '(n, k, t) => plain_field n k t) l) 0.
+Definition wrapper_types : list ptype :=
+  [TBool; TBytes; TDouble; TFloat; TInt32; TInt64; TString; TUInt32; TUInt64].
+Definition value_name : list byte := [x76; x61; x6c; x75; x65].
+Definition wrapper_class (t : ptype) : cdesc :=
+  match Tables.wrapper_value_type t with
+  | Some vt => mkC [plain_field value_name 1 vt] 0
+  | None => empty_class
+  end.
+Definition builtin_classes : list cdesc :=
+  class_of_layout Tables.timestamp_fields :: class_of_layout Tables.duration_fields
+  :: map wrapper_class wrapper_types.
+Definition timestamp_cls : nat := 0.
+Definition duration_cls : nat := 1.
+Definition wrapper_cls (t : ptype) : option nat :=
+  (fix go (i : nat) (l : list ptype) : option nat :=
+     match l with
+     | [] => None
+     | t' :: r => if ptype_eqb t t' then Some i else go (Datatypes.S i) r
+     end) 2%nat wrapper_types.
 
 (* ---- Python values ---- *)
 Inductive pv :=
